@@ -335,7 +335,7 @@ func fixedDoc(v pdf.Version, sink simdisk.SinkKind) ([]byte, []pdf.Reference, er
 }
 
 // Regressions for 65a5bd5 (shouldExit swallowed I/O errors in recover mode),
-// 11fb62b (ReadStreamData turned I/O errors into the recovery path) and
+// 7ef06e8 (ReadStreamData turned I/O errors into the recovery path) and
 // 2e011c9 (scanner spun forever after a partial read with an error): every
 // fault point of a fixed document in every reader mode.
 var corners = map[string]func(e *core.Env){
